@@ -648,6 +648,9 @@ pub struct TensorChain {
 
     /// Optional geometric membership manager for routing decisions.
     geometric_membership: Option<Arc<GeometricMembershipManager>>,
+
+    /// Serializes the snapshot / apply / append / restore section of `commit`.
+    commit_lock: parking_lot::Mutex<()>,
 }
 
 impl TensorChain {
@@ -696,6 +699,7 @@ impl TensorChain {
             identity,
             validator_registry,
             geometric_membership: None,
+            commit_lock: parking_lot::Mutex::new(()),
         }
     }
 
@@ -738,6 +742,7 @@ impl TensorChain {
             identity,
             validator_registry,
             geometric_membership: None,
+            commit_lock: parking_lot::Mutex::new(()),
         }
     }
 
@@ -782,6 +787,7 @@ impl TensorChain {
             identity,
             validator_registry,
             geometric_membership: None,
+            commit_lock: parking_lot::Mutex::new(()),
         }
     }
 
@@ -827,6 +833,7 @@ impl TensorChain {
             identity,
             validator_registry,
             geometric_membership: None,
+            commit_lock: parking_lot::Mutex::new(()),
         }
     }
 
@@ -1015,6 +1022,11 @@ impl TensorChain {
                 self.config.max_txs_per_block
             )));
         }
+
+        // The pre-image below is only valid while nobody else applies a block: of two
+        // concurrent commits the loser would otherwise restore a snapshot taken before the
+        // winner applied, erasing the winner's writes and block records.
+        let _commit_guard = self.commit_lock.lock();
 
         let snapshot = self
             .graph
@@ -1422,6 +1434,7 @@ impl TensorChain {
             identity,
             validator_registry,
             geometric_membership: None,
+            commit_lock: parking_lot::Mutex::new(()),
         }
     }
 
